@@ -5,7 +5,7 @@
 //@ struct file=src/sys/fs/memfs/file.rs name=MemfsFile
 //@ endstruct
 //@ struct file=src/sys/fs/memfs/entry.rs name=MemfsEntry
-//@ rw R4 1 ⟦Option<HashSet<String>>⟧ => ⟦Option<NameSet>⟧
+//@ rw R4 * ⟦Option<HashSet<String>>⟧ => ⟦Option<NameSet>⟧
 //@ endstruct
 
 #[verifier::external_body]
@@ -563,9 +563,9 @@ pub proof fn lemma_valid_free(s0: St, a: PathV, d0: PathV)
 //@ rw R11 + ⟦self._is_dir(&guard, &dst_root)⟧ => ⟦_is_dir(guard, &dst_root)⟧
 //@ rw R1 * ⟦dst_first != src_root⟧ => ⟦dst_first.ne(&src_root)⟧
 //@ rw R9 1 ⟦let mut paths = vec![src_root.clone()];⟧ => ⟦let mut paths = vec_of1(src_root.clone());⟧
-//@ rw R4 1 ⟦dst_entry.path.clone_from(&dst_path);⟧ => ⟦dst_entry.path = dst_path.clone();⟧
+//@ rw R4 * ⟦dst_entry.path.clone_from(&dst_path);⟧ => ⟦dst_entry.path = dst_path.clone();⟧
 //@ rw R3 1 ⟦for name in files {⟧ => ⟦for name in files.iter() {⟧
-//@ rw R1 1 ⟦paths.push(src_entry.path().mash(name));⟧ => ⟦paths.push(src_entry.path().mash_name(&name));⟧
+//@ rw R1 * ⟦paths.push(src_entry.path().mash(name));⟧ => ⟦paths.push(src_entry.path().mash_name(&name));⟧
 //@ rw R3 1 for
 //@ ins after ⟦let copy_into = _is_dir(guard, &dst_root);⟧
         let ghost s0 = guard.st();
